@@ -28,6 +28,9 @@ func genTypes(t *rapid.T) []int {
 		add(busmodel.ByName("LocalA"))
 		add(busmodel.ByName("LocalB"))
 	}
+	if rapid.IntRange(0, 3).Draw(t, "wantSelfNamed") == 0 {
+		add(busmodel.ByName("ESelf")) // names itself from its value
+	}
 	for len(out) < n {
 		add(rapid.IntRange(0, len(busmodel.Types)-1).Draw(t, "type"))
 	}
